@@ -4,6 +4,14 @@ import json, os
 HERE = os.path.dirname(os.path.abspath(__file__))
 TECH = "bounded symbolic execution of rustc MIR of /repo (mirsym, own MIR->SMT engine) decided by z3; cvc5 + z3-4.8.12 re-decide every VC in the thorough tier; counterexamples replayed natively before reporting"
 CHECKS = {
+ 'C02': dict(
+   text="Bounded symbolic execution of the real publish path (Channel::basic_publish, ChannelHandle::send_content, IoLoopHandle send_content_header/body, OutputBuffer push + serialize, from MIR) with a body of symbolic 64-bit length, symbolic payload limit (frame_max-8 >= 4088 or unlimited), symbolic flags/strings: the messages handed to the I/O thread must be exactly Basic.Publish(ticket 0, exchange, routing key, mandatory, immediate as given), one header (class 60, body_size = len, the given properties) and body frames contiguous from offset 0, full except the last, never empty, never above the limit, summing to len, each alone in its message and on that channel; a second publish appends its own group after the first.",
+   note="Chunk loop unrolled k times (len <= k x limit; exact multiples inside); byte encodings are amq-protocol's (frames are tracked as identities with payload ranges); counterexamples replayed natively by observation equality on a real Channel.",
+   ref="DESIGN.md §4 C02"),
+ 'C12': dict(
+   text="Symbolic execution from MIR of every public operation of Channel, Queue, Exchange, Consumer and Delivery (58 operations plus open_channel) with all arguments symbolic (strings, tables, booleans, integers, every ExchangeType variant), comparing the single method frame handed to the I/O thread with an expectation table written from the AMQP method definitions: class/method, every field, ticket 0, nowait/passive exactly in those variants, source vs destination, the object's own name in wrappers, delivery tags; synchronous calls read exactly one reply, nowait calls none; acknowledging through a channel with another id panics before anything is sent; cancel is idempotent. Operations missing from the table make the run inconclusive.",
+   note="Strings/tables opaque; wire encoding is amq-protocol's; counterexamples replayed natively on a real Channel by observation equality (decoded frames' Debug rendering).",
+   ref="DESIGN.md §4 C12"),
  'C03': dict(
    text="Bounded model checking of the real content path (ContentCollector, State::collect_header/collect_body, Delivery/Return/Get constructors and the dispatch arms, from MIR): a start method, a header announcing a symbolic size and up to K body frames of symbolic lengths on one channel with a frame of another channel interleaved; after every prefix the content must have been handed over exactly when the announced size was reached, exactly once, to its addressee (consumer by tag / pending get / return listener), as the body frames in order and contiguous with the sent metadata and the header's properties, overrun being FrameUnexpected; plus one step from every collector state showing frames of other channels leave the collector untouched (interleaving independence by induction), and consumer queues unbounded / non-blocking.",
    note="K body frames per message (evidence.bounds); byte contents are tracked as chunk identities and lengths, not bit-blasted; stream segmentation is C06; queue FIFO trusted. Native replay by observation equality (body chunks carry distinct byte values) and sampled translator validation.",
